@@ -49,6 +49,7 @@ impl Gen {
             0 => ("last", 0),
             1 => ("fold", 0),
             2 => ("nth", 0),
+            3 if self.rng.gen_bool(0.15) => ("nth", 2_000_000_000),
             3 => ("nth", self.rng.gen_range(0..left + 3)),
             4 => (["any", "all", "position", "find"][self.rng.gen_range(0..4)], self.rng.gen_range(0..left + 2)),
             _ => ("none", 0),
